@@ -235,6 +235,9 @@ def _judge(P, case, traj, f0, tsave, stop_arg, eff, call, restart_it=None, tsave
                 raise Violation("solve-terminates", "more than 400 steps taken for a history of at most 60 steps: the run does not stop (time at entry %r, dt %r)" % (f.time, float(np.min(dtloc))))
             return cls.step(self, f, dtloc)
     solver = call["solver"] if call.get("solver") is not None else Rec(P.mesh, P.disc)
+    if call.get("solver") is None and P.smd["name"] != "euler2d":
+        solver._vf_log = []
+        sim.preuse_solver(P, solver, case, case["cfl"])          # a new solver object may already have a past (see sim.preuse_solver); solve() starts afresh
     solver._vf_log = log          # (a restart re-uses the solver object of the preceding solve, as a user would)
     call["log"] = log
     keep_data, keep_time, keep_it = sim.copy_data(f0), f0.time, f0.it
